@@ -419,8 +419,22 @@ func genStoredShapes(r *rand.Rand, i int) Scenario {
 	}
 	seq := 0
 	b := genBatch(r, &cfg, &seq)
-	sc := Scenario{Name: fmt.Sprintf("stored_shapes-%d", i), NormKind: "code", Universe: universeOf(&cfg), Batches: []Batch{b}}
-	sc.Ops = append(sc.Ops, Op{Op: "build", Seg: 1, Batch: 0, Mode: 0},
+	// a twin batch: same shape and value lengths, different stored bytes (equal block extents, different content)
+	twin := make(Batch, len(b))
+	for d := range b {
+		twin[d] = make(Doc, len(b[d]))
+		for k := range b[d] {
+			fi := b[d][k]
+			v := append(Bytes{}, fi.Value...)
+			for x := range v {
+				v[x] = (v[x] + 1 + x%3) % 256
+			}
+			fi.Value = v
+			twin[d][k] = fi
+		}
+	}
+	sc := Scenario{Name: fmt.Sprintf("stored_shapes-%d", i), NormKind: "code", Universe: universeOf(&cfg), Batches: []Batch{b, twin}}
+	sc.Ops = append(sc.Ops, Op{Op: "build", Seg: 1, Batch: 0, Mode: 0}, Op{Op: "build", Seg: 5, Batch: 1, Mode: 0},
 		Op{Op: "persist", Seg: 1, File: 1}, Op{Op: "load", File: 1, Seg: 2, Backing: []string{"mem", "file"}[r.Intn(2)]},
 		Op{Op: "merge", File: 2, In: []int{1}, Drops: []DropSpec{randDropsNotAll(r, len(b))}, Mode: 0, Buf: 256},
 		Op{Op: "load", File: 2, Seg: 3, Backing: "mem"})
@@ -431,6 +445,17 @@ func genStoredShapes(r *rand.Rand, i int) Scenario {
 			n = len(b) - 1
 		}
 		sc.Ops = append(sc.Ops, Op{Op: "stored", Seg: seg, N: n, Stop: []int{0, 0, 1, 2, 3}[r.Intn(5)]})
+		if r.Intn(3) == 0 {
+			sc.Ops = append(sc.Ops, Op{Op: "stored", Seg: 5, N: n}) // the twin right after: same extent, other bytes
+		}
+	}
+	if len(b) > 1 {
+		// the merger walks both twins with one visit context (re-encode path: a document dropped in each)
+		sc.Ops = append(sc.Ops, Op{Op: "merge", File: 7, In: []int{1, 5}, Drops: []DropSpec{{Kind: "set", Docs: []int{0}}, {Kind: "set", Docs: []int{len(b) - 1}}}, Mode: 0, Buf: 256},
+			Op{Op: "load", File: 7, Seg: 7, Backing: "mem"})
+		for n := 0; n < 2*len(b)-2 && n < 300; n++ {
+			sc.Ops = append(sc.Ops, Op{Op: "stored", Seg: 7, N: n})
+		}
 	}
 	return sc
 }
